@@ -1398,6 +1398,11 @@ class Machine:
                     self.event_sites['PUSH_' + ('LB' if inlb else 'MB')].add(path)
                     g = self._consume(g, prov_of(TUP(argv[1:])))
                     if inlb:
+                        if 'minus_lines' in loc and g.Lq:
+                            # the paint function renders all buffered removed lines before all buffered added lines: a removed
+                            # line pushed while added lines are waiting will be shown before them
+                            self.violate('ORD-P', path, 'a removed line is buffered while earlier added lines are still buffered: the subhunk is painted '
+                                         'minus-first, so the removed line overtakes the added lines that preceded it in the input', g, site, callee, facet='Lq')
                         g = g._replace(**{('Lm' if 'minus_lines' in loc else 'Lq'): 1, 'LBp': 0, 'DEF': min(g.DEF + 1, 3)})
                     else:
                         g = g._replace(MB=1, MBp=0, DEF=min(g.DEF + 1, 3))
